@@ -188,3 +188,36 @@ class RawSocket:
 
     def fileno(self):
         return nondet_int()
+
+
+class DatagramSocket:
+    """socket.socket(SOCK_DGRAM), non-blocking.  recv(bufsize) dequeues ONE datagram and returns its first bufsize bytes
+    (the rest is discarded by the kernel); a UDP payload is at most 65527 bytes (IPv6; 65507 over IPv4).
+    send(data) hands ONE datagram to the OS."""
+
+    def fileno(self):
+        return nondet_int()
+
+    def recv(self, bufsize):
+        k = nondet_int()
+        if k == 0:
+            raise BlockingIOError
+        if k == 1:
+            raise InterruptedError
+        if k == 2:
+            raise_any(OSError, BlockingIOError, InterruptedError)
+        d = nondet_bytes()
+        assume(len(d) <= 65527)
+        ghost.DG_IN = ghost.DG_IN + unit(d)
+        return d[:bufsize]
+
+    def send(self, data):
+        k = nondet_int()
+        if k == 0:
+            raise BlockingIOError
+        if k == 1:
+            raise InterruptedError
+        if k == 2:
+            raise_any(OSError, BlockingIOError, InterruptedError)
+        ghost.DG_OUT = ghost.DG_OUT + unit(bytes(data))
+        return len(data)
